@@ -4091,6 +4091,13 @@ class FlowIR(object):
             if value is not None:
                 return int(value)
 
+        def to_bool(value):
+            # VV: bool('false') is True. A boolean option can be a string when it is set via a variable
+            #     (e.g. `isMigratable: "%(migratable)s"`), parse it the way DOSINI parses boolean constants
+            if isinstance(value, string_types):
+                return str_to_bool(value)
+            return bool(value)
+
         expected_types = {
             'command': {
                 'arguments': str,
@@ -4103,16 +4110,16 @@ class FlowIR(object):
             'workflowAttributes': {
                 'restartHookFile': str,
                 'replicate': int,
-                'aggregate': bool,
-                'isMigratable': bool,
-                'isMigrated': bool,
+                'aggregate': to_bool,
+                'isMigratable': to_bool,
+                'isMigrated': to_bool,
                 'repeatInterval': int,
                 'repeatRetries': int,
-                'isRepeat': bool,
+                'isRepeat': to_bool,
                 # VV: when maxRestarts is None, the Engine/RepeatingEngine objects decides max number of restarts
                 'maxRestarts': optional_int,
                 'optimizer': {
-                    'disable': bool,
+                    'disable': to_bool,
                     'exploitChance': float,
                     'exploitTarget': float,
                     'exploitTargetLow': float,
